@@ -32,6 +32,116 @@ def vec_of(obj, elem):
     return re.fullmatch(r'std::vector<(\w+::)*%s(, *std::allocator<.*>)?>' % re.escape(elem), t) is not None
 
 
+def status_vars(M, f):
+    """locals that receive the return value of yylex (0 = end of this file)"""
+    out = set()
+    for d, ds in M.defs(f).items():
+        for kind, rhs, node in ds:
+            if rhs is not None and is_call(strip_casts(rhs), 'yylex'):
+                out.add(d)
+    return out
+
+
+def is_eof_test(c, statvars):
+    """<yylex status> == 0  (either order), or !<status>"""
+    c = strip_casts(c)
+    while c is not None and c.get('k') == 'paren':
+        c = strip_casts(c['e'])
+    if c is None:
+        return False
+    if c.get('k') == 'bin' and c.get('op') == '==':
+        l, r = strip_casts(c['l']), strip_casts(c['r'])
+        for a, b in ((l, r), (r, l)):
+            if a is not None and b is not None and a.get('k') == 'ref' and a.get('d') in statvars and b.get('k') == 'int' and b.get('v') == 0:
+                return True
+    if c.get('k') == 'un' and c.get('op') == '!':
+        a = strip_casts(c['e'])
+        return a is not None and a.get('k') == 'ref' and a.get('d') in statvars
+    return False
+
+
+def mentions_eof_test(c, statvars):
+    return any(is_eof_test(x, statvars) for x in walk_expr(c))
+
+
+def files_map(obj):
+    """an expression of the type of the file table (name -> content)"""
+    t = (strip_casts(obj).get('cty') or '') if obj is not None else ''
+    t = t.replace('const ', '').replace(' &', '').strip()
+    return re.match(r'std::map<std::(basic_string<char>|string), std::(basic_string<char>|string)', t) is not None
+
+
+def in_files(c, key):
+    """files.contains(key) for the file table under any name"""
+    return is_call(c, '::contains') and c.get('obj') is not None and files_map(c['obj']) and len(c.get('args', [])) == 1 and \
+        show(strip_conv(c['args'][0])) == key
+
+
+def is_active_test(c, key):
+    return is_call(c, 'exists_scanner') and len(c.get('args', [])) == 2 and vec_of(c['args'][0], 'Scanner') and show(strip_conv(c['args'][1])) == key
+
+
+def yylex_actions(lfacts, LM, yl, nrules):
+    """The switch of yylex over the rule number and, per rule number, what the action does with the token:
+    {'args': the four arguments of the Token construction in yylex's own terms (or None + 'why'), 'stored': assigned through
+    the ret parameter, 'returns_nonzero', 'case'}.  The construction may sit in the action itself (TOK expanded in place) or
+    in a helper of lex.yy.c that the action calls and returns; the helper's parameters are replaced by the arguments."""
+    sw, best = None, 0
+    for st in walk_stmts(yl['body']):
+        if st['k'] == 'switch':
+            n = sum(1 for c in st['cases'] for l in c['labels'] if isinstance(l, dict) and isinstance(l.get('v'), int))
+            if n > best:
+                sw, best = st, n
+    if sw is None or best < nrules:
+        return None, {}
+    retp = [p['d'] for p in yl['params'] if 'Token' in (p.get('cty') or '')]
+    actions = {}
+    for c in sw['cases']:
+        labs = [l.get('v') for l in c['labels'] if isinstance(l, dict)]
+        cons = [e for s in c['s'] for e in walk_all_exprs(s) if e.get('k') == 'construct' and e.get('rec') == 'Theo::Token' and len(e.get('args', [])) == 4]
+        rets = [s2 for s in c['s'] for s2 in walk_stmts(s) if s2['k'] == 'return']
+        act = {'args': None, 'why': '%d Token constructions' % len(cons), 'stored': False, 'returns_nonzero': False, 'case': c}
+
+        def nonzero(e):
+            e = strip_casts(e)
+            return e is not None and e.get('k') == 'int' and e['v'] != 0
+        if len(cons) == 1:
+            asg = [e for s in c['s'] for e in walk_all_exprs(s) if (e.get('k') == 'call' and (e.get('callee') or '').endswith('Token::operator=')) or e.get('k') == 'assign']
+            act['args'] = cons[0]['args']
+            act['stored'] = any(any(x.get('k') == 'ref' and x.get('d') in retp for x in walk_expr(y.get('obj') or y.get('l'))) for y in asg)
+            act['returns_nonzero'] = len(rets) == 1 and rets[0].get('e') is not None and nonzero(rets[0]['e'])
+        elif not cons:
+            hc = [e for s in c['s'] for e in walk_all_exprs(s) if e.get('k') == 'call' and e.get('callee_in_repo') and e.get('obj') is None]
+            hs = []
+            for e in hc:
+                h = lfacts.fn(e.get('callee'), optional=True)
+                if h is not None and h.get('body') is not None and len(h['params']) == len(e['args']):
+                    hcons = [x for x in walk_all_exprs(h['body']) if x.get('k') == 'construct' and x.get('rec') == 'Theo::Token' and len(x.get('args', [])) == 4]
+                    if len(hcons) == 1:
+                        hs.append((e, h, hcons[0]))
+            if len(hs) == 1:
+                e, h, hcon = hs[0]
+                branching = any(st['k'] in ('if', 'for', 'while', 'do', 'rangefor', 'switch') for st in walk_stmts(h['body']))
+                if branching:
+                    act['why'] = 'the helper %s builds the token on some paths only' % h['q']
+                else:
+                    sub = {p['d']: LM.inline_value(yl, a) for p, a in zip(h['params'], e['args'])}
+                    act['args'] = [LM.inline_value(h, a, sub) for a in hcon['args']]
+                    hasg = [x for x in walk_all_exprs(h['body']) if (x.get('k') == 'call' and (x.get('callee') or '').endswith('Token::operator=')) or x.get('k') == 'assign']
+                    tg = [LM.inline_value(h, y.get('obj') or y.get('l'), sub) for y in hasg]
+                    act['stored'] = any(any(x.get('k') == 'ref' and x.get('d') in retp for x in walk_expr(t)) for t in tg)
+                    hrets = [x for x in walk_stmts(h['body']) if x['k'] == 'return' and x.get('e') is not None]
+                    helper_nonzero = bool(hrets) and all(nonzero(x['e']) for x in hrets)
+                    if len(rets) == 1 and rets[0].get('e') is not None:
+                        r0 = strip_casts(rets[0]['e'])
+                        act['returns_nonzero'] = nonzero(r0) or (r0 is e and helper_nonzero)
+            elif hs:
+                act['why'] = '%d helper calls that build tokens' % len(hs)
+        for v in labs:
+            actions[v] = act
+    return sw, actions
+
+
 def c14(rep, tier):
     repo = os.environ.get('VERIF_REPO', '/repo')
     lpath = os.path.join(repo, 'Compiler/src/lexer.l')
@@ -129,6 +239,11 @@ def c14(rep, tier):
         L4.check(i in winners, 'rule %d %s' % (i + 1, r['pattern']), 'wins for at least one input', 'rule can never match (shadowed by earlier rules): its token kind is never produced by these spellings',
                  'Compiler/src/lexer.l:%d' % r['line'])
 
+    lfacts = Facts(['Compiler/src/lex.yy.c'])
+    rep.note_facts(lfacts)
+    yl = lfacts.fn('yylex')
+    LM = Multi(lfacts)
+    sw, actions = yylex_actions(lfacts, LM, yl, len(spec.rules))
     L5 = rep.rule('C14.L5', 'scanner options: reentrant, noyywrap, yylineno, extra-type', floor=4)
     tokdef = ' '.join(l for l in spec.prologue if 'define TOK' in l.replace('#', '').replace('  ', ' '))
     mline = re.search(r'Token\s*\((.*)\)\s*;', tokdef)
@@ -148,6 +263,15 @@ def c14(rep, tier):
                 cur += ch
         args_.append(cur.strip())
         line_src = args_[3] if len(args_) >= 4 else None
+    if line_src is None and actions:
+        # TOK hands the work to a helper: the line is what the committed actions pass on (the same for every action, checked by L6)
+        srcs = set()
+        for v, act in actions.items():
+            if act['args'] is not None and len(act['args']) >= 4:
+                t = show(act['args'][3])
+                srcs.add('yylineno' if 'yy_bs_lineno' in t else t.replace('yyg->yyextra_r', 'yyextra').replace(' ', ''))
+        if len(srcs) == 1:
+            line_src = srcs.pop()
     uses_yylineno = line_src == 'yylineno'
     for o in ('reentrant', 'noyywrap'):
         L5.check(o in spec.options, 'option %s' % o, 'present', 'option %s missing' % o, 'Compiler/src/lexer.l')
@@ -185,25 +309,10 @@ def c14(rep, tier):
 
     L6 = rep.rule('C14.L6', 'in the committed scanner every token-producing action builds Token(kind of its rule, matched text with its '
                             'length, file name of this scanner, current line) into *ret and returns non-zero', floor=37)
-    lfacts = Facts(['Compiler/src/lex.yy.c'])
-    rep.note_facts(lfacts)
-    yl = lfacts.fn('yylex')
     rep.analysed(yl)
-    sw = None
-    for st in walk_stmts(yl['body']):
-        if st['k'] == 'switch' and sum(1 for c in st['cases'] for s in c['s'] for e in walk_all_exprs(s) if e.get('k') == 'construct' and e.get('rec') == 'Theo::Token') > 10:
-            sw = st
     if sw is None:
         L6.unknown('yylex', 'action switch not found')
     else:
-        actions = {}
-        for c in sw['cases']:
-            labs = [l.get('v') for l in c['labels'] if isinstance(l, dict)]
-            cons = [e for s in c['s'] for e in walk_all_exprs(s) if e.get('k') == 'construct' and e.get('rec') == 'Theo::Token']
-            rets = [s2 for s in c['s'] for s2 in walk_stmts(s) if s2['k'] == 'return']
-            asg = [e for s in c['s'] for e in walk_all_exprs(s) if (e.get('k') == 'call' and (e.get('callee') or '').endswith('Token::operator=')) or e.get('k') == 'assign']
-            for v in labs:
-                actions[v] = (cons, rets, asg, c)
         no_len = []
         for i, r in enumerate(spec.rules):
             tok = spec.token_of(r)
@@ -213,12 +322,13 @@ def c14(rep, tier):
             if (i + 1) not in actions:
                 L6.violation(inst, 'no action for this rule in the committed yylex', 'Compiler/src/lex.yy.c')
                 continue
-            cons, rets, asg, c = actions[i + 1]
+            act = actions[i + 1]
+            c = act['case']
             why = []
-            if len(cons) != 1:
-                why.append('%d Token constructions' % len(cons))
+            if act['args'] is None:
+                why.append(act['why'])
             else:
-                a = cons[0]['args']
+                a = act['args']
                 kind = strip_casts(a[0])
                 if not (kind.get('k') == 'ref' and kind.get('dk') == 'enumerator' and kind['name'] == tok):
                     why.append('kind %s, the specification says %s' % (show(kind), tok))
@@ -235,11 +345,9 @@ def c14(rep, tier):
                     why.append('line is %s, not yylineno' % show(a[3]))
                 elif not uses_yylineno and line_src is not None and got != line_src.replace(' ', ''):
                     why.append('line is %s, not the line source %s of the specification' % (show(a[3]), line_src))
-            okret = len(rets) == 1 and strip_casts(rets[0]['e']).get('k') == 'int' and strip_casts(rets[0]['e'])['v'] != 0
-            if not okret:
+            if not act['returns_nonzero']:
                 why.append('does not return a non-zero value')
-            okasg = any('ret' in show(x.get('obj') or x.get('l')) for x in asg)
-            if not okasg:
+            if not act['stored']:
                 why.append('token not stored through *ret')
             L6.check(not why, inst, 'Token(%s, yytext/yyleng, yyextra->filename, yylineno) -> *ret; return 1' % tok, '; '.join(why), 'Compiler/src/lex.yy.c:%d' % c['s'][0]['loc'][0] if c['s'] else 'Compiler/src/lex.yy.c')
 
@@ -329,6 +437,7 @@ def scan_rules(rep, sfacts):
     S2 = rep.rule('C14.S2', 'every token the scanner returns is appended unchanged, except include directives and the end of a file', floor=2)
     ylex = [ev for ev in g.calls() if is_call(ev.e, 'yylex')]
     pushes = [ev for ev in g.calls() if is_call(ev.e, '::push_back') and vec_of(ev.e['obj'], 'Token') and ev not in eofs]
+    statvars = status_vars(M, scan)
     if len(pushes) != 1 or not ylex or not loops:
         S2.unknown('scan', '%d token pushes / %d yylex calls' % (len(pushes), len(ylex)))
     else:
@@ -352,11 +461,11 @@ def scan_rules(rep, sfacts):
         for cst in conts:
             # find guards of this continue: enclosing ifs
             enc = enclosing_conditions(body, cst)
-            okc = any(('== 0' in c and 'd' in c.split('==')[0]) or 'INCLUDE' in c for c, pol in enc if pol)
+            okc = any(mentions_eof_test(cx, statvars) or 'INCLUDE' in c for c, pol, cx in enc if pol)
             if not okc:
-                bad.append('%s at line %d under %s' % (cst['k'], cst['loc'][0], enc))
+                bad.append('%s at line %d under %s' % (cst['k'], cst['loc'][0], [(c, pol) for c, pol, cx in enc]))
         # the push itself must not be nested in a condition
-        encp = [x for x in enclosing_conditions(body, None, target_expr=push.e)]
+        encp = [(c, pol) for c, pol, cx in enclosing_conditions(body, None, target_expr=push.e)]
         S2.check(not bad and not encp, 'scan: no token is dropped', '%d early loop-backs, all under "end of file" or "include keyword"; the push is unconditional' % len(conts),
                  'a token can be skipped: %s %s' % (bad, encp), 'Compiler/src/scan.cpp:%d' % push.e['loc'][0])
     S3 = rep.rule('C14.S3', 'scanners start at line 1 and label tokens with the key of the file they scan', floor=3)
@@ -383,7 +492,7 @@ def scan_rules(rep, sfacts):
             if is_call(e, 'create_scanner'):
                 ncalls += 1
                 a0, a1 = strip_casts(e['args'][0]), strip_conv(e['args'][1])
-                same = is_call(a0, '::operator[]') and show(strip_conv(a0['args'][0])) == show(a1)
+                same = (is_call(a0, '::operator[]') or is_call(a0, '::at')) and files_map(a0.get('obj')) and show(strip_conv(a0['args'][0])) == show(a1)
                 if not same:
                     okcalls = False
                     bad_call = e
@@ -425,11 +534,11 @@ def enclosing_conditions(body, target_stmt, target_expr=None):
             return
         if s['k'] == 'if':
             if contains(s['t']):
-                res.append((show(s['c']), True))
+                res.append((show(s['c']), True, s['c']))
                 rec(s['t'])
                 return
             if contains(s.get('e')):
-                res.append((show(s['c']), False))
+                res.append((show(s['c']), False, s['c']))
                 rec(s['e'])
                 return
         from .facts import stmt_children
@@ -498,7 +607,7 @@ def c15(rep, tier):
     if len(ev) == 1:
         rec = record_of(ev[0])
         fr = strip_conv(rec.get('file_request')) if rec.get('file_request') is not None else None
-        okg = guarded(ev[0].g, ev[0].ev, lambda c: is_call(c, '::contains') and show(c) == 'files.contains(%s)' % main['name'], False)
+        okg = guarded(ev[0].g, ev[0].ev, lambda c: in_files(c, main['name']), False)
         ok = fr is not None and fr.get('d') == main['d'] and okg
         why = 'file_request = %s, guarded by !files.contains(main): %s' % (show(fr) if fr else None, okg)
     I1.check(ok, 'scan: missing main', 'errors += {MAIN_FILE_NOT_FOUND, ..., file_request = main} when !files.contains(main)', why, W % scan['loc'][1])
@@ -508,11 +617,14 @@ def c15(rep, tier):
         fparam = fn_['params'][0]
         for evx in gg.calls():
             e = evx.e
-            if is_call(e, '::operator[]') and e.get('obj') is not None and strip_casts(e['obj']).get('d') == fparam['d']:
+            if (is_call(e, '::operator[]') or is_call(e, '::at')) and e.get('obj') is not None and strip_casts(e['obj']).get('d') == fparam['d']:
                 key = show(strip_conv(e['args'][0]))
-                okx = guarded(gg, evx, lambda c: is_call(c, '::contains') and show(c) == '%s.contains(%s)' % (fparam['name'], key), True)
+                okx = guarded(gg, evx, lambda c: in_files(c, key), True)
                 I1.check(okx, '%s: %s[%s]' % (fq, fparam['name'], key), 'subscript (which would create the file) only under %s.contains(%s)' % (fparam['name'], key),
-                         'std::map::operator[] creates an empty file named %s when it is absent: the missing file is neither reported nor requested' % key,
+                         ('std::map::operator[] creates an empty file named %s when it is absent: the missing file is neither reported nor requested' % key)
+                         if is_call(e, '::operator[]') else
+                         ('the content of %s is taken without a test that the file is there (%s): an absent file ends the compilation instead of being reported and requested'
+                          % (key, 'dereferenced result of find()' if e.get('from_find') else 'at() throws')),
                          '%s:%d' % (os.path.relpath(fn_['file'], sfacts.repo), e['loc'][0]))
     I2 = rep.rule('C15.I2', 'an include that is not followed by a quoted name is reported', floor=1)
     ev = err_pushes('EXPECTED_FILENAME')
@@ -525,7 +637,8 @@ def c15(rep, tier):
             if c.get('k') != 'bin' or c['op'] != '||':
                 return False
             parts = [show(strip_casts(c['l'])).replace(' ', ''), show(strip_casts(c['r'])).replace(' ', '')]
-            return any(p in ('(d==0)', '(0==d)') for p in parts) and any('FNAME' in p and '!=' in p for p in parts)
+            sv = status_vars(M, ev[0].fn)
+            return any(is_eof_test(x, sv) for x in (c['l'], c['r'])) and any('FNAME' in p and '!=' in p for p in parts)
         inc_guard = guarded(ev[0].g, ev[0].ev, lambda c: c.get('k') == 'bin' and c['op'] == '==' and 'INCLUDE' in show(c), True)
         if not inc_guard and ev[0].fn is not scan:
             # the helper is only called under the include test
@@ -542,7 +655,7 @@ def c15(rep, tier):
     if len(ev) == 1:
         rec = record_of(ev[0])
         fr = strip_conv(rec.get('file_request')) if rec.get('file_request') is not None else None
-        if fr is not None and fr.get('k') == 'ref' and guarded(ev[0].g, ev[0].ev, lambda c: is_call(c, '::contains') and show(c) == 'files.contains(%s)' % fr['name'], False):
+        if fr is not None and fr.get('k') == 'ref' and guarded(ev[0].g, ev[0].ev, lambda c: in_files(c, fr['name']), False):
             namevar = fr
             # the name is the token text without its quotes
             defs = M.defs(ev[0].fn).get(fr['d'], [])
@@ -572,9 +685,9 @@ def c15(rep, tier):
             I4.unknown('scan: lex_stack.push_back', 'argument is not create_scanner(...)')
             continue
         key = show(strip_conv(crt[0]['args'][1]))
-        exists = guarded(g, ev, lambda c: is_call(c, '::contains') and show(c) == 'files.contains(%s)' % key, True)
+        exists = guarded(g, ev, lambda c: in_files(c, key), True)
         inloop = (scan_ is not scan) or (loops and any(x is ev.e for x in walk_all_exprs(loops[0]['body'])))
-        notactive = guarded(g, ev, lambda c: is_call(c, 'exists_scanner') and show(c) == 'exists_scanner(lex_stack, %s)' % key, False)
+        notactive = guarded(g, ev, lambda c: is_active_test(c, key), False)
         # the variable holding the key must not be redefined between the tests and the push
         kv = strip_conv(crt[0]['args'][1])
         stale = []
@@ -586,7 +699,7 @@ def c15(rep, tier):
                 if dev is None:
                     continue
                 for cond, label, cn in g.guards_of(ev):
-                    if ('contains(%s)' % key in show(cond) or 'exists_scanner(lex_stack, %s)' % key in show(cond)) and cn.id in g.dom[dev.node.id]:
+                    if any(in_files(x, key) or is_active_test(x, key) for x in walk_expr(cond)) and cn.id in g.dom[dev.node.id]:
                         stale.append((show(cond), show(node)))
         if stale:
             I4.violation('scan: push %s' % key, 'the key is modified (%s) after it was tested (%s): the tests looked at a different name than the one that is scanned' % (stale[0][1][:60], stale[0][0][:60]),
